@@ -769,14 +769,14 @@ class _AsyncNodeWrapper:
             if len(self._record_steps) < self.max_records:
                 # The supervisor produces a _SkippedSteps in-place of the output when we reset, resulting in a _SkippedSteps in the output.
                 # To ensure that the record has a consistent shape, we replace the _SkippedSteps with a None tree.
-                if len(self._record_steps) > 0 and (self._record_steps[-1].output is None) != (record_step.output is None):
-                    assert isinstance(output, _SkippedSteps), "Output should be _SkippedSteps when we are stopping/resetting."
+                if isinstance(output, _SkippedSteps):  # We are stopping/resetting (also when outputs are not recorded)
                     if (
                         output.skipped_steps == 1
                     ):  # Only append the final step we are stopping/resetting, not the ones that follow.
-                        record_step = record_step.replace(
-                            output=jax.tree_util.tree_map(lambda x: None, self._record_steps[0].output)
-                        )  # Should only happen for the last step of the supervisor.
+                        if len(self._record_steps) > 0 and self._record_steps[0].output is not None:
+                            record_step = record_step.replace(
+                                output=jax.tree_util.tree_map(lambda x: None, self._record_steps[0].output)
+                            )  # Should only happen for the last step of the supervisor.
                         self._record_steps.append(record_step)
                 else:
                     self._record_steps.append(record_step)
